@@ -641,13 +641,15 @@ class DefaultCodec(Codec):
                     parent_index = pickle_partition_parent._index
                     # noinspection PyProtectedMember
                     parent_data_source = pickle_partition_parent._data_source
-                elif hasattr(merge_parent, "_output_keys") and hasattr(
-                    merge_parent, "_data_source"
+                elif (
+                    getattr(merge_parent, "_output_keys", None) is not None
+                    and getattr(merge_parent, "_parent_data_source", None) is not None
                 ):
+                    # A staging partition (in memory / on disk) that was serialized before
                     # noinspection PyProtectedMember
                     parent_index = merge_parent._output_keys
                     # noinspection PyProtectedMember
-                    parent_data_source = merge_parent._data_source
+                    parent_data_source = merge_parent._parent_data_source
                 else:
                     raise IOError(
                         "Could not merge partitions: parent is not "
@@ -694,9 +696,11 @@ class DefaultCodec(Codec):
 
             # If this is an InMemoryPartition, remember the output keys so they can be
             # referred to when merging partitions in the future
-            if hasattr(obj, "_output_keys") and hasattr(obj, "_data_source"):
+            # (in `_parent_data_source`: `_data_source`, where a partition has one, is where its
+            # own staged values live and must stay untouched for the object to remain usable)
+            if hasattr(obj, "_output_keys") and hasattr(obj, "_parent_data_source"):
                 obj._output_keys = output_keys
-                obj._data_source = data_source
+                obj._parent_data_source = data_source
 
             # noinspection PyProtectedMember
             obj._index_bytes = DefaultCodec.PicklePartition._serialize_index(index)
